@@ -86,9 +86,20 @@ def random_case(r):
         while dim * (2 * span + 6) ** 2 > 6000:
             span -= 1
     n = r.choice([5, 6, 7, 8, 12, 17, 33, 40, 64, r.randint(5, 90)])
-    style = r.choice(["uniform", "clustered", "dups", "allequal", "line"])
+    style = r.choice(["uniform", "clustered", "dups", "allequal", "line", "unitcube", "unitcube"])
     pts = []
-    if style == "uniform":
+    unit = 0
+    if style == "unitcube":
+        # dyadic points of [0,1]^d: numerators 0..unit (all integers, not only the even ones) at scale sc = unit
+        unit = r.choice([8, 16, 32])
+        if metric == "l2":
+            while dim * (unit + 6) ** 2 > 6000:
+                dim -= 1
+        if metric == "lp3":
+            unit = 8
+        span = unit // 2
+        pts = [[r.randint(0, unit) for _ in range(dim)] for _ in range(n)]
+    elif style == "uniform":
         pts = [[2 * r.randint(0, span) for _ in range(dim)] for _ in range(n)]
     elif style == "clustered":
         cs = [[2 * r.randint(0, span) for _ in range(dim)] for _ in range(r.randint(1, 4))]
@@ -116,9 +127,11 @@ def random_case(r):
     else:
         q = [r.randint(-3, 2 * span + 3) for _ in range(dim)]
     # translate everything (negative coordinates)
-    off = r.choice([0, 0, -span, -2 * span - 1])
+    off = 0 if unit else r.choice([0, 0, -span, -2 * span - 1])
     pts = [[x + off for x in p] for p in pts]
     q = [x + off for x in q]
+    # scale: the real data are pts / sc (sc a power of two, exact): sub-unit clouds, e.g. span 8 at sc 16 is [0,1]^d
+    sc = unit if unit else r.choice([1, 1, 4, 16, 64])
     ks = sorted({0, 1, 2, 3, n // 2, n - 1, n, n + 1, r.randint(1, n)})
     ds = [_reduced(metric, p, q) for p in pts]
     r8s = {0}
@@ -138,7 +151,7 @@ def random_case(r):
              {"ix": r.choice(["ball_d", "ball_n"]), "ft": oft, "leaf": r.choice([4, 5]), "lay": "std"}]
     if metric in ("l1", "l2", "linf", "lp1") and dim <= 8:
         sess += [{"ix": "tree", "ft": ft, "leaf": r.choice(leafs), "lay": "std"}]
-    return {"kind": "nn", "inp": {"n": n, "dim": dim, "pts": pts, "q": q, "metric": metric, "ks": ks,
+    return {"kind": "nn", "inp": {"n": n, "dim": dim, "sc": sc, "pts": pts, "q": q, "metric": metric, "ks": ks,
                                   "r8s": sorted(r8s), "badq": [[], [1] * (dim + 1)], "sess": sess}}
 
 
@@ -173,15 +186,16 @@ def run(ctx):
     vlib.validate_with_findings(ctx, "Trace_NN", traces, constants=TRACE_CONST, chunk=1200)
     ctx.rule = ("case = (point sequence on a doubled lattice, query point on the full lattice incl. outside the hull, metric), "
                 "enumerated by TLC (Gen_NN: 1-D {0,2,4,6} n<=6, 2-D 3x3 n<=4(5), 3-D 2x2x2 n<=4(5); the smallest family complete, "
-                "the others a seeded 1/stride sample of the full product) [+ seeded random clustered/duplicated clouds n<=90, "
-                "dim<=16 in the thorough tier]; every case is run on linear scan, k-d tree and ball tree at every leaf size, "
+                "the others a seeded 1/stride sample of the full product; plus the same lattices divided by 4 and 16 = sub-unit leaf "
+                "spheres) [+ seeded random clustered/duplicated clouds and dyadic clouds in [0,1]^d, n<=90, dim<=16, scales 1..64, "
+                "in the thorough tier]; every case is run on linear scan, k-d tree and ball tree at every leaf size, "
                 "f32/f64, several layouts and calling forms, with all k in 0..n+1 and radii on / between / beyond the attained "
                 "distances; non-trivial = n >= 2 and at least one tree session whose leaf size is < n (tree with >= 2 nodes); "
                 "distinct by (points, query, metric)")
     ctx.trusted = ["TLC + CommunityModules Json", "harness encoding of results and parsing of BallTreeIndex's Debug output "
                    "(harness/src/bin/c07.rs)",
                    "exactness of f32/f64 sums, squares and maxima of small integers and of dyadic radii"]
-    ctx.assumptions = ["inputs are integer lattice points and radii are multiples of 1/8, so L1/L2/Linf comparisons are exact in "
+    ctx.assumptions = ["inputs are integer lattice points divided by a power of two and radii are multiples of 1/(8 sc), so L1/L2/Linf comparisons are exact in "
                        "f32 and f64; for LpDist (p-th root) a point exactly on the radius is left undecided",
                        "ties are never decided: any tied point may be returned, range results in any order"]
     return vlib.finish(ctx)
